@@ -47,6 +47,33 @@ def _corridor(rng):
     return sp
 
 
+def _wide_corridor(rng):
+    """HUNDREDS of cells, each step lands uniformly on one of the next 5 cells, gamma = 1: the number of distinct walks between
+    two cells leaves float range long before the end; the far end is an absorbing goal or a closed loop that pays a cost"""
+    n = rng.choice([520, 600, 640])
+    sp = G.Spec()
+    sp.family = "wide-corridor"
+    sp.gamma = 1.0
+    sp.states = list(range(n))
+    end_loop = rng.random() < 0.3
+    for i in range(n):
+        sp.acts[i] = ("go", "stay")
+        succ = sorted({min(i + k, n - 1) for k in range(1, 6)})
+        sp.P[(i, "go")] = [(t_, 1.0 / len(succ)) for t_ in succ]
+        sp.kind[(i, "go")] = "dict"
+        for t_ in succ:
+            sp.R[(i, "go", t_)] = -1.0
+        sp.P[(i, "stay")] = [(i, 1.0)]
+        sp.kind[(i, "stay")] = "dict"
+        sp.R[(i, "stay", i)] = 0.0
+    if not end_loop:
+        sp.flag = {n - 1}
+    sp.init = [(0, 1.0)]
+    sp.meta.update(abs_kinds=["zero"] if sp.flag else [], label_kind="int", abs_type="bool", num_type="float",
+                   actions_type="tuple", fresh_labels=False, corridor=n)
+    return sp
+
+
 def run_case(case, rng):
     from msdm.core.mdp import TabularPolicy, FunctionalPolicy
     from msdm.core.distributions import DictDistribution
@@ -75,6 +102,9 @@ def run_case(case, rng):
         fam = "corridor"
         sp = _corridor(rng)
     rep = rng.choice(Bd.REPRS)
+    if rng.random() < (0.004 if case.tier == "quick" else 0.0005):
+        corridor, fam, sp, rep = True, "wide-corridor", _wide_corridor(rng), "subclass"
+        case.count("models_with_hundreds_of_states")
     if not rep.endswith("explicit"):
         G.restrict_to_closure(sp, rng)
     mdp = Bd.build(sp, rep, shuffle_rng=rng)
